@@ -572,8 +572,10 @@ func (w *vWorld) doTaskErr(vj *vJob) {
 	} else {
 		verifAssert(verifSpawnedCount() == nSpawned, "C08.continue-does-not-cancel")
 	}
-	jt := vj.job.Tasks.ByName(t.Name)
-	verifAssert(jt != nil && jt.Errored && jt.Error != nil, "C08.task-failure-recorded")
+	_ = w.r.ReadJob(vj.id, func(j *PipelineJob) {
+		jt := j.Tasks.ByName(t.Name)
+		verifAssert(jt != nil && jt.Errored && jt.Error != nil, "C08.task-failure-recorded")
+	})
 }
 
 func (w *vWorld) doTimer(vt *vTimer) {
